@@ -480,4 +480,96 @@ bool relabelTypes(std::string& bytes, const std::vector<std::string>& types) {
 	}
 	return true;
 }
+
+std::string randomModelOp(NifFile& nif, std::mt19937_64& r) {
+	auto& hdr = nif.GetHeader();
+	auto nodes = nif.GetNodes();
+	auto shapes = nif.GetShapes();
+	JObj a;
+	switch (r() % 7) {
+		case 0: {
+			long long parent = (nodes.empty() || r() % 3 == 0) ? -1 : (long long) nif.GetBlockID(nodes[r() % nodes.size()]);
+			if (parent < 0 && !nif.GetRootNode()) return "";
+			a.add("op", "AddNode").add("name", "m" + std::to_string(r() % 1000)).add("parent", parent);
+			break;
+		}
+		case 1: {
+			if (nodes.size() < 2) return "";
+			auto c = nodes[r() % nodes.size()];
+			auto p = nodes[r() % nodes.size()];
+			// (re-parenting a node below itself or below one of its descendants makes a cycle: not a well-formed call)
+			std::vector<NiObject*> below;
+			nif.GetTree(below, c);
+			if (std::find(below.begin(), below.end(), (NiObject*) p) != below.end()) return "";
+			a.add("op", "SetParent").add("c", (long long) nif.GetBlockID(c)).add("p", (long long) nif.GetBlockID(p));
+			break;
+		}
+		case 2: {
+			if (shapes.empty() || nodes.empty()) return "";
+			a.add("op", "SetParent").add("c", (long long) nif.GetBlockID(shapes[r() % shapes.size()])).add("p", (long long) nif.GetBlockID(nodes[r() % nodes.size()]));
+			break;
+		}
+		case 3: {
+			if (shapes.empty()) return "";
+			a.add("op", "DeleteShape").add("i", (long long) nif.GetBlockID(shapes[r() % shapes.size()]));
+			break;
+		}
+		case 4: {
+			if (shapes.empty()) return "";
+			a.add("op", r() % 2 ? "DeleteShader" : "DeleteSkinning").add("i", (long long) nif.GetBlockID(shapes[r() % shapes.size()]));
+			break;
+		}
+		case 5: {
+			if (nodes.size() < 2) return "";
+			auto n = nodes[1 + r() % (nodes.size() - 1)];
+			// DeleteNode goes by name: the first node of that name is the one that is deleted
+			auto first = nif.FindBlockByName<NiNode>(n->name.get());
+			a.add("op", "DeleteNode").add("i", (long long) nif.GetBlockID(first));
+			break;
+		}
+		default: {
+			std::vector<NiAVObject*> av;
+			for (auto n : nodes) av.push_back(n);
+			for (auto s : shapes) av.push_back(s);
+			if (av.empty()) return "";
+			a.add("op", "AssignExtra").add("i", (long long) nif.GetBlockID(av[r() % av.size()]));
+		}
+	}
+	(void) hdr;
+	return a.done();
+}
+
+bool applyModelOp(NifFile& nif, const JV& a) {
+	auto& hdr = nif.GetHeader();
+	const std::string op = a["op"].s;
+	if (op == "AddNode") {
+		MatTransform t;
+		NiNode* parent = a["parent"].n < 0 ? nullptr : hdr.GetBlock<NiNode>(uint32_t(a["parent"].n));
+		nif.AddNode(a["name"].s, t, parent);
+	}
+	else if (op == "SetParent") {
+		auto c = hdr.GetBlock<NiObject>(uint32_t(a["c"].n));
+		auto p = a["p"].n < 0 ? nullptr : hdr.GetBlock<NiNode>(uint32_t(a["p"].n));
+		nif.SetParentNode(c, p);
+	}
+	else if (op == "DeleteShape") nif.DeleteShape(hdr.GetBlock<NiShape>(uint32_t(a["i"].n)));
+	else if (op == "DeleteShader") {
+		if (auto s = hdr.GetBlock<NiShape>(uint32_t(a["i"].n))) nif.DeleteShader(s);
+	}
+	else if (op == "DeleteSkinning") {
+		if (auto s = hdr.GetBlock<NiShape>(uint32_t(a["i"].n))) nif.DeleteSkinning(s);
+	}
+	else if (op == "DeleteNode") {
+		if (auto n = hdr.GetBlock<NiNode>(uint32_t(a["i"].n))) nif.DeleteNode(n->name.get());
+	}
+	else if (op == "AssignExtra") {
+		auto ed = std::make_unique<NiStringExtraData>();
+		ed->name.get() = "mx";
+		ed->stringData.get() = "v";
+		if (auto t = hdr.GetBlock<NiAVObject>(uint32_t(a["i"].n))) nif.AssignExtraData(t, std::move(ed));
+	}
+	else
+		return false;
+	return true;
+}
 } // namespace vh
